@@ -37,7 +37,9 @@ const SIG_ENUMCOMMENT: &str = "enum-variant-comment-render";
 /// (Rust type text, expected Varlink type, needs lifetime 'a, is Option at the top)
 fn leaf_types(rng: &mut Rng, customs: &[(String, bool)], inline_structs: &[(String, Vec<Fld>)]) -> (String, Ty, bool) {
     let ints = ["i8", "i16", "i32", "i64", "u8", "u16", "u32", "u64", "isize", "usize"];
-    match rng.below(16) {
+    match rng.below(17) {
+        // string-like standard types (serde writes them as JSON strings)
+        16 => (["std::path::PathBuf", "std::ffi::OsString", "std::net::IpAddr", "std::net::Ipv4Addr", "std::net::Ipv6Addr", "std::net::SocketAddr"][rng.below(6)].into(), Ty::Str, false),
         0 => ("bool".into(), Ty::Bool, false),
         1..=3 => (rng.pick(&ints).to_string(), Ty::Int, false),
         4 => (["f32", "f64"][rng.below(2)].into(), Ty::Float, false),
